@@ -5,6 +5,7 @@ package main
 
 import (
 	"fmt"
+	"runtime"
 	"strings"
 	"sync"
 	"sync/atomic"
@@ -945,6 +946,142 @@ func caseQLive(cfg *RunCfg, st *Stats, w *CaseWriter, idx int) string {
 	return fmt.Sprintf("qlive total=%d handler=%d interval=%dms %s", total, hand, iv/1e6, strings.Join(human, " "))
 }
 
+// ---------------------------------------------------------------- wall clock
+// The real plugin with its real tickers: after a sequence of Update calls (limit and interval
+// changes in both directions) the bucket is drained and calls arrive without pause for a
+// measured window.  Oracle = the property's bound for that window, violated only above twice
+// the bound (scheduling jitter must never raise an alarm); and the number of updateToken calls
+// seen at the gate in the window against the one refill source the configuration allows.
+
+var wallTicks int64
+
+func settleGoroutines() int {
+	prev := runtime.NumGoroutine()
+	for i := 0; i < 60; i++ {
+		time.Sleep(30 * time.Millisecond)
+		n := runtime.NumGoroutine()
+		if n == prev {
+			return n
+		}
+		prev = n
+	}
+	return prev
+}
+
+func caseWall(cfg *RunCfg, st *Stats, w *CaseWriter, idx int, forced bool) string {
+	r := cfg.Rng
+	ivs := []time.Duration{10 * time.Millisecond, 20 * time.Millisecond, 50 * time.Millisecond, 100 * time.Millisecond, 200 * time.Millisecond}
+	maxq := int32([]int{50, 100, 200}[r.Intn(3)])
+	iv := ivs[r.Intn(len(ivs))]
+	type upd struct {
+		m  int32
+		iv time.Duration
+	}
+	var us []upd
+	if forced {
+		maxq, iv = 100, 10*time.Millisecond
+		us = []upd{{100, 100 * time.Millisecond}}
+	} else {
+		for k, n := 0, 1+r.Intn(3); k < n; k++ {
+			u := upd{maxq, iv}
+			if len(us) > 0 {
+				u = us[len(us)-1]
+			}
+			if r.Intn(3) == 0 {
+				u.m = int32([]int{50, 100, 200}[r.Intn(3)])
+			}
+			if r.Intn(4) != 0 {
+				for prev := u.iv; u.iv == prev; {
+					u.iv = ivs[r.Intn(len(ivs))]
+				}
+			}
+			us = append(us, u)
+		}
+	}
+	ol := overloader.New(overloader.LimitConfig{MaxTotalQPS: maxq, QPSInterval: iv})
+	srv := erpc.NewPeer(erpc.PeerConfig{}, ol)
+	srv.RouteCall(new(H))
+	defer srv.Close()
+	const nsess = 4
+	var pairs []*Pair
+	for i := 0; i < nsess; i++ {
+		c := erpc.NewPeer(erpc.PeerConfig{})
+		defer c.Close()
+		p := ServePair(srv, c)
+		if p.SrvSess == nil || p.CliSess == nil {
+			st.Fail(idx, "setup", "wall: could not create the sessions", "")
+			return "wall setup failed"
+		}
+		pairs = append(pairs, p)
+	}
+	human := fmt.Sprintf("wall max=%d interval=%v", maxq, iv)
+	var uv []string
+	g0 := settleGoroutines()
+	curM, curIv := maxq, iv
+	for _, u := range us {
+		ol.Update(overloader.LimitConfig{MaxTotalQPS: u.m, QPSInterval: u.iv})
+		curM, curIv = u.m, u.iv
+		uv = append(uv, VL(VN(int64(u.m)), VN(int64(u.iv))))
+		human += fmt.Sprintf(" upd(%d,%v)", u.m, u.iv)
+		time.Sleep(30 * time.Millisecond)
+	}
+	added := runtime.NumGoroutine() - g0
+	once := int64(curM) / int64(time.Second/curIv)
+	if once == 0 {
+		once = 1
+	}
+	call := func(p *Pair) bool {
+		var rr string
+		return p.CliSess.Call("/h/b", "x", &rr).Status().OK()
+	}
+	// drain
+	for miss, end := 0, time.Now().Add(500*time.Millisecond); miss < 20 && time.Now().Before(end); {
+		if call(pairs[0]) {
+			miss = 0
+		} else {
+			miss++
+		}
+	}
+	const window = time.Second
+	var admitted int64
+	atomic.StoreInt64(&wallTicks, 0)
+	start := time.Now()
+	var wg sync.WaitGroup
+	for _, p := range pairs {
+		wg.Add(1)
+		go func(p *Pair) {
+			defer wg.Done()
+			for time.Since(start) < window {
+				if call(p) {
+					atomic.AddInt64(&admitted, 1)
+				}
+			}
+		}(p)
+	}
+	wg.Wait()
+	elapsed := time.Since(start)
+	ticks := atomic.LoadInt64(&wallTicks)
+	allowedTicks := int64(elapsed/curIv) + 1
+	bound := int64(curM) + once*allowedTicks + allowedTicks
+	human += fmt.Sprintf(" -> %d admitted in %v (bound %d), %d refills (one source: <= %d), %d goroutines left behind", admitted, elapsed.Round(time.Millisecond), bound, ticks, allowedTicks, added)
+	if admitted > 2*bound {
+		st.Fail(idx, "wall-rate", fmt.Sprintf("%d calls admitted in %v; capacity %d + refill %d x %d ticks + one per tick = %d (alarm threshold twice that)", admitted, elapsed, curM, once, allowedTicks, bound), human)
+	}
+	sources := int64(1)
+	if ticks > 2*allowedTicks+2 {
+		sources = (ticks + allowedTicks - 1) / allowedTicks
+		st.Fail(idx, "extra-refill-source", fmt.Sprintf("updateToken ran %d times in %v; the configured interval %v allows %d (alarm threshold twice that + 2)", ticks, elapsed, curIv, allowedTicks), human)
+	}
+	if q := ol.VerifTotalQPS(); q != nil { // stops the ticker
+		_ = q
+	}
+	for _, p := range pairs {
+		p.CliSess.Close()
+	}
+	w.Add(VL(VS("wall"), VN(int64(maxq)), VN(int64(iv)), VL(uv...)), VL(VZ(int64(added)), VN(sources)))
+	return human
+}
+
 // ---------------------------------------------------------------- main
 
 func main() {
@@ -957,7 +1094,7 @@ func main() {
 		}
 	})
 	st := NewStats("C18", cfg)
-	st.Rule = "histories drawn from 7 kinds: cseq/qseq = random op sequences on the limiter handles; cconc/qconc = random forced interleavings of 2-4 goroutines parked at the gate points (plus the lost-update schedule of the refuted theorem); live = accept / refuse-by-earlier-plugin / refuse-by-limit / refuse-by-later-plugin / concurrent batch / close (client or server side) / limit update / duplicate disconnect on a real peer; dial = the same with the plugin in the dialing peer; qlive = calls, pushes and harness-driven ticks through a live session. distinct by kind + event string; non-trivial = at least one refusal or one interleaved step"
+	st.Rule = "histories drawn from 7 kinds: cseq/qseq = random op sequences on the limiter handles; cconc/qconc = random forced interleavings of 2-4 goroutines parked at the gate points (plus the lost-update schedule of the refuted theorem); live = accept / refuse-by-earlier-plugin / refuse-by-limit / refuse-by-later-plugin / concurrent batch / close (client or server side) / limit update / duplicate disconnect on a real peer; dial = the same with the plugin in the dialing peer; qlive = calls, pushes and harness-driven ticks through a live session; wall = 2 (thorough 8) wall-clock runs of the real plugin with real tickers after limit/interval updates, 1 s of sustained calls. distinct by kind + event string; non-trivial = at least one refusal or one interleaved step"
 	w := NewCaseWriter(cfg)
 	distinct := DistinctSet{}
 	for i := 0; i < cfg.N; i++ {
@@ -996,7 +1133,23 @@ func main() {
 			st.Samples = append(st.Samples, desc)
 		}
 	}
-	st.Evaluations = cfg.N
+	// wall-clock sub-run, last: its tickers are real and must not fire into a coroutine schedule
+	overloader.VerifSetGate(func(point string) {
+		if point == "qps.update.loaded" {
+			atomic.AddInt64(&wallTicks, 1)
+		}
+	})
+	nwall := 2
+	if cfg.Tier == "thorough" {
+		nwall = 8
+	}
+	for k := 0; k < nwall; k++ {
+		desc := caseWall(cfg, st, w, cfg.N+k, k == 0)
+		st.Count("kind:wall")
+		distinct.Add(desc)
+		st.Samples = append(st.Samples, desc)
+	}
+	st.Evaluations = cfg.N + nwall
 	st.DistinctNontrivial = len(distinct)
 	st.Write(cfg, w)
 }
